@@ -47,7 +47,8 @@ def gen(rng, tier):
     for _ in range(80 if quick else 1500):
         ps.append(G.random_pda(rng, rng.randint(1, 3), rng.choice(['a', 'ab']), ['x', 'y', 'xy'], rng.choice(['_', '']),
                                ntrans=rng.randint(3, 9), kinds=['push', 'pop', 'push', 'pop', 'noop']))
-    cases = []
+    spell = [G.spelling_pda(rng) for _ in range(10 if quick else 100)]
+    cases = [{'P': p, 'limit': 1000, 'ws': ['aab', 'aabb', 'aa', 'ab', 'aabbb', ''], 'sets': [[['s', []]]]} for p in spell]
     # a limit ABOVE the default: a chain of 1100 epsilon moves has a closure of 1101 configurations; with the limit set to
     # 1200 the accepting end of the chain must be found, with 1050 the closure is truncated
     for lim in ([1200] if quick else [1200, 1050, 1101]):
